@@ -13,7 +13,16 @@ RULE = ('class tables built with types.new_class.  GenericMixin: every shape fam
         'class Labelled(Generic[L]) with L a variable of its own or one of T1..Tn, a two-parameter one, a subscriptable class without '
         '__orig_bases__ like list) at every position before / after Generic[...] and GenericMixin, arguments from the vocabulary or from '
         'T1..Tn, instantiated with and without type arguments, with binding subclasses (extra plain mixin first / last) and plain subclasses '
-        'of them; reported only: binding subclasses with a second subscripted base first / last; '
+        'of them; binding subclasses with 1-2 FURTHER SUBSCRIPTED BASES that have nothing to do with GenericMixin (ordinary generic classes with one '
+        'or two parameters, a types.GenericAlias class like list, a class subscribed like typing.Sequence) before / after / on both sides of the '
+        'binding base, with a plain mixin anywhere, over direct classes with either base order or with a parametrised mixin of their own, and '
+        'plain subclasses of them; reported only: two subscripted GenericMixin bases, bindings of generic classes that are no GenericMixin classes; '
+        'HISTORIES of queries (kind "history"): a family Money(Generic[T1..Tn], GenericMixin) / Euro(Money[..]) / Dollar(Marker, Money[..]) / '
+        'Plain(GenericMixin) / Other(GenericMixin, Generic[T1]) / Sub(Euro) whose instances have identity semantics, are value objects '
+        '(__eq__ / __hash__ by a shared value: instances of different classes are equal), are unhashable (__eq__ without __hash__) or are '
+        '@dataclass instances — declared by the root classes, by every class, or by the sub classes only —, eight instances created first '
+        '(parametrised, unparametrised, binding, non-generic) and then queried: every instance alone, every ordered pair (i, j, i), seeded longer '
+        'sequences; random tables carry the same flags now and then; '
         'near misses: partially binding subclasses, re-declared Generic, two bound bases, diamonds, builtin aliases '
         '(List[int]) as bases) x n = 1..4 x type arguments from a 15-element vocabulary (enumerated for the small '
         'families, seeded otherwise) + seeded random tables of 1-6 classes.  WithDecoratedMethods: classes with 0-6 '
@@ -24,14 +33,19 @@ RULE = ('class tables built with types.new_class.  GenericMixin: every shape fam
         'with member names x unparametrised / non-enum type argument.  non-trivial = the instance answers with a mapping '
         'or at least one decorator application exists')
 EXHAUSTIVE = {'quick': False, 'thorough': False}
-ASSUMPTIONS = ['classes are created by the interpreter (types.new_class); class creation that the interpreter refuses is not a case',
+ASSUMPTIONS = ['a class subscribed like typing.Sequence (typing._GenericAlias with a _name) is generated only in front of another typing alias: when none '
+               'follows, typing appends `Generic` to the bases, which the class-table model of __mro_entries__ does not describe',
+               'classes are created by the interpreter (types.new_class); class creation that the interpreter refuses is not a case',
                'type arguments are opaque objects (identity/equality), names are (leading underscores, rest)',
                'extra parametrised mixin bases of a directly generic class are user generic classes (typing aliases `Labelled[str]`) at every position '
                'and subscripted classes without __orig_bases__ (types.GenericAlias, the stand-in for list[int]) before Generic[...] only: typing keeps '
                '`Generic` among the bases when only a types.GenericAlias follows it, which the class-table model of __mro_entries__ does not describe',
                'enum values of DecoratorType members are attribute names that no other object reachable from the instance carries '
                '(guard `decoGuard`; collisions are generated and compared but reported only)']
-TRUSTED = ['CPython: `__orig_bases__` exists on a class iff a base is subscripted; `Cls[X]()` sets `__orig_class__`; C3 MRO '
+TRUSTED = ['issubclass(origin, GenericMixin) is modelled as reachability through __bases__ (for a class the interpreter created the MRO consists of '
+           'exactly these classes); the driver checks on every case that this agrees with membership in the MRO it computes, which is compared '
+           'with __mro__',
+           'CPython: `__orig_bases__` exists on a class iff a base is subscripted; `Cls[X]()` sets `__orig_class__`; C3 MRO '
            '(re-computed by the model and compared with `__mro__` on every case); bound methods forward attribute reads; '
            'dir() = union of the namespaces along the MRO']
 
@@ -90,6 +104,39 @@ def targ_obj(a, lib_e=None):
     return w.vocab[a[1]] if a[1] < NVOC else ('enum-slot', a[1])
 
 
+class _NamedAlias:
+    """subscription of a class the way typing subscribes its own aliases (`typing.Sequence[int]`): a `typing._GenericAlias` that
+    carries a `_name` — no `__orig_bases__` on the origin, `__mro_entries__` of the special aliases"""
+
+    def __init__(self, cls): self.cls = cls
+
+    def __getitem__(self, args):
+        return typing._GenericAlias(self.cls, args if isinstance(args, tuple) else (args,), name=self.cls.__name__)
+
+
+def _value_eq(self, other):
+    return getattr(other, '__pv__', None) == self.__pv__
+
+
+def _value_hash(self):
+    return hash(self.__pv__)
+
+
+EQ_KINDS = ['value', 'nohash', 'dataclass']
+
+
+def eq_namespace(kind):
+    """how the instances of a user class compare and hash (`eq` flag of a class; inherited by its sub classes like any attribute):
+    value   value objects: __eq__ / __hash__ by a value that all instances share — instances of DIFFERENT classes are equal
+    nohash  __eq__ defined, __hash__ = None: unhashable instances
+    (dataclass: applied after the class exists, see build_classes)"""
+    if kind == 'value':
+        return {'__pv__': 4, '__eq__': _value_eq, '__hash__': _value_hash}
+    if kind == 'nohash':
+        return {'__pv__': 4, '__eq__': _value_eq, '__hash__': None}
+    return {}
+
+
 def build_classes(table, stand_in=False, ns_builder=None, enum_objs=None):
     """returns (subscriptables, classes) indexed by class id"""
     w = _W.get()
@@ -105,6 +152,11 @@ def build_classes(table, stand_in=False, ns_builder=None, enum_objs=None):
     subs = [typing.Generic, gm, abc_, wdm]; clss = [typing.Generic, gm, abc_, wdm]
     for k, cd in enumerate(table):
         cid = LIB + k
+        if cd.get('cgi') == 'typing':
+            # a class subscribed the way typing's own aliases are (`typing.Sequence[int]`): no `__orig_bases__` on the origin either
+            c = type(f'S{cid}', (), {})
+            subs.append(_NamedAlias(c)); clss.append(c)
+            continue
         if cd.get('cgi'):
             # a subscriptable class without `__orig_bases__` (what builtins like list are)
             c = type(f'S{cid}', (), {'__class_getitem__': classmethod(_types.GenericAlias)})
@@ -124,8 +176,12 @@ def build_classes(table, stand_in=False, ns_builder=None, enum_objs=None):
                 bases.append(subs[b[1]][tuple(args)] if len(args) != 1 else subs[b[1]][args[0]])
             else:
                 bases.append(clss[b[1]])
-        ns = ns_builder(cid, cd) if ns_builder else {}
+        ns = dict(ns_builder(cid, cd) if ns_builder else {})
+        ns.update(eq_namespace(cd.get('eq')))
         c = _types.new_class(f'C{cid}', tuple(bases), {}, lambda d, ns=ns: d.update(ns))
+        if cd.get('eq') == 'dataclass':
+            import dataclasses
+            c = dataclasses.dataclass(c)          # eq=True: __eq__ by fields (there are none: all instances equal), __hash__ = None
         subs.append(c); clss.append(c)
     return subs, clss
 
@@ -251,9 +307,51 @@ def generic_cases(rng, tier):
                         add(t + [cls_([]), cls_([PL(box + 1), P(box, a2)])], box + 2, None, 'pbinding')
                         add(t + [cls_([]), cls_([P(box, a2), PL(box + 1)])], box + 2, None, 'pbinding')
                         add(t + [cls_([P(box, a2)]), cls_([PL(box + 1)])], box + 2, None, 'plainsub-pbinding')
-                        # reported only: a binding subclass with a second subscripted base ("their generic base" is not defined)
+                        # a binding subclass with a second subscripted base that has nothing to do with GenericMixin, first / last
                         add(t + [cls_([P(LIB, [ty(rng.randrange(NVOC))]), P(box, a2)])], box + 1, None, 'pbinding-extra-first')
                         add(t + [cls_([P(box, a2), P(LIB, [ty(rng.randrange(NVOC))])])], box + 1, None, 'pbinding-extra-last')
+    # binding subclasses with FURTHER SUBSCRIPTED BASES that have nothing to do with GenericMixin, at every position:
+    #   class Odd(Labelled[str], Box[int]), class SeqBox(Sequence[int], Box[int]), class Three(Labelled[str], Box[int], list[int])
+    for n in range(1, NTV + 1):
+        tvs = list(range(1, n + 1))
+        for lv in ([NTV] if n < NTV else []) + [1]:
+            two = [lv, 2 if lv != 2 else 3]
+            # ids LIB..LIB+4: Labelled(Generic[L]), Two(Generic[L, M]), a types.GenericAlias class (list), a typing-named alias (Sequence), a plain mixin
+            pool = [cls_([G([lv])]), cls_([G(two)]), cls_([], cgi=True), cls_([], cgi='typing'), cls_([])]
+            npar = [1, 2, 1, 1]
+            box = LIB + len(pool)
+            for core in ([G(tvs), PL(GM_ID)], [PL(GM_ID), G(tvs)], [P(LIB, [ty(rng.randrange(NVOC))]), G(tvs), PL(GM_ID)]):
+                t = pool + [cls_(core)]
+                bind = box + 1
+                layouts = [((f,), (pos,)) for f in range(4) for pos in (0, 1)]
+                pairs = [((f, g), pos) for f in range(4) for g in range(4) if f != g for pos in itertools.product((0, 1), repeat=2)]
+                layouts += pairs if big else rng.sample(pairs, 12)
+                for fs, pos in layouts:
+                    a2 = args_for(n)
+                    before = [P(LIB + f, [ty(rng.randrange(NVOC)) for _ in range(npar[f])]) for f, p_ in zip(fs, pos) if p_ == 0]
+                    after = [P(LIB + f, [ty(rng.randrange(NVOC)) for _ in range(npar[f])]) for f, p_ in zip(fs, pos) if p_ == 1]
+                    # a typing-named alias that no other typing alias follows makes typing append `Generic` to the bases (not described by
+                    # the class-table model): it is generated in front of the binding base only
+                    if any(b[1] == LIB + 3 for b in after):
+                        continue
+                    bases = before + [P(box, a2)] + after
+                    for extra in ([], [PL(LIB + 4)]):
+                        bs = list(bases)
+                        if extra:
+                            bs.insert(rng.randrange(len(bs) + 1), extra[0])
+                        tt = t + [cls_(bs)]
+                        if not valid(tt):
+                            continue
+                        fam = 'fbinding-' + ('first' if before and not after else 'last' if after and not before else 'both')
+                        add(tt, bind, None, fam)
+                        if not extra:
+                            add(tt + [cls_([PL(bind)])], bind + 1, None, 'plainsub-' + fam)
+                # reported only: two subscripted GenericMixin bases; a binding of a generic class that is no GenericMixin class
+                a2 = args_for(n)
+                box2 = [PL(GM_ID), G([1])] if core[0] == PL(GM_ID) else [G([1]), PL(GM_ID)]       # same order as the core: one consistent MRO
+                add(t + [cls_(box2), cls_([P(box, a2), P(box + 1, [ty(0)])])], box + 2, None, 'two-mixin-bases')
+                add(pool + [cls_([P(LIB, [ty(rng.randrange(NVOC))]), PL(GM_ID)])], box, None, 'foreign-bound')
+                add(pool + [cls_([PL(GM_ID), P(LIB + 1, [ty(0), ty(1)])])], box, None, 'foreign-bound')
     # non-generic users
     add([cls_([PL(GM_ID)])], LIB, None, 'nongeneric')
     add([cls_([]), cls_([PL(GM_ID), PL(LIB)])], LIB + 1, None, 'nongeneric')
@@ -346,6 +444,11 @@ def random_table(rng):
                 arity.append(max(ar) if ar and max(ar) > 0 and all(b[0] == 'plain' for b in bs) else (0 if any(b[0] == 'param' for b in bs) else (-1 if ar else None)))
             else:
                 table.append(cls_([])); arity.append(None)
+    if rng.random() < 0.15:
+        # instances that are value objects / unhashable (any user class may say so; sub classes inherit it)
+        for cd in rng.sample(table, rng.randint(1, len(table))):
+            if not cd.get('cgi'):
+                cd['eq'] = rng.choice(EQ_KINDS)
     if not valid(table):
         return None
     users = [i for i in range(ncls) if arity[i] is not None]
@@ -356,6 +459,53 @@ def random_table(rng):
     if a is not None and a > 0 and rng.random() < 0.75:
         orig = [ty(rng.randrange(NVOC)) for _ in range(a)]
     return gcase(table, LIB + i, orig, 'random')
+
+
+# ------------------------------------------------------------------------------------------------ histories of queries
+
+def hcase(table, insts, qs, fam):
+    return {'m': 'mixins', 'c': {'k': 'history', 'table': table, 'insts': insts, 'qs': qs}, 'x': {'fam': fam}}
+
+
+def history_table(rng, n, eq, where):
+    """class Money(Generic[T1..Tn], GenericMixin); class Euro(Money[..]); class Marker; class Dollar(Marker, Money[..]);
+    class Plain(GenericMixin); class Other(GenericMixin, Generic[T1]); class Sub(Euro) — `eq` says how instances compare / hash,
+    `where` = 'roots' (declared by the root classes, inherited) | 'all' (every user class declares it itself) | 'subs' (only the
+    sub classes: the direct generic class keeps identity semantics)"""
+    tvs = list(range(1, n + 1))
+    a1 = [ty(rng.randrange(NVOC)) for _ in range(n)]
+    a2 = [ty(rng.randrange(NVOC)) for _ in range(n)]
+    money, euro, marker, dollar, plain, other, sub = range(LIB, LIB + 7)
+    t = [cls_([G(tvs), PL(GM_ID)]), cls_([P(money, a1)]), cls_([]), cls_([PL(marker), P(money, a2)]), cls_([PL(GM_ID)]),
+         cls_([PL(GM_ID), G([1])]), cls_([PL(euro)])]
+    roots, subs_ = (0, 4, 5), (1, 3, 6)
+    if eq:
+        for i in {'roots': roots, 'all': roots + subs_, 'subs': subs_}[where]:
+            t[i]['eq'] = eq
+    return t, (money, euro, dollar, plain, other, sub)
+
+
+def history_cases(rng, tier):
+    out = []
+    big = tier != 'quick'
+    for eq in [None] + EQ_KINDS:
+        for where in (['roots'] if eq is None else ['roots', 'all', 'subs']):
+            for n in ((1, 2) if not big else (1, 2, 3)):
+                t, (money, euro, dollar, plain, other, sub) = history_table(rng, n, eq, where)
+                fam = f'hist-{eq or "identity"}-{where}'
+
+                def args(): return [ty(rng.randrange(NVOC)) for _ in range(n)]
+                insts = [[money, args()], [money, args()], [money, None], [euro, None], [dollar, None], [plain, None],
+                         [other, [ty(rng.randrange(NVOC))]], [sub, None]]
+                # every query alone, every ordered pair of instances (the second answer must not depend on the first), each instance twice
+                for i in range(len(insts)):
+                    out.append(hcase(t, insts, [i], fam))
+                for i in range(len(insts)):
+                    for j in range(len(insts)):
+                        out.append(hcase(t, insts, [i, j, i], fam))
+                for _ in range(40 if big else 8):
+                    out.append(hcase(t, insts, [rng.randrange(len(insts)) for _ in range(rng.randint(3, 8))], fam))
+    return out
 
 
 # ------------------------------------------------------------------------------------------------ decorated cases
@@ -478,7 +628,7 @@ def deco_cases(rng, tier):
 
 
 def cases(rng, tier):
-    return generic_cases(rng, tier) + deco_cases(rng, tier)
+    return generic_cases(rng, tier) + history_cases(rng, tier) + deco_cases(rng, tier)
 
 
 def search(rng, tier, near):
@@ -487,6 +637,7 @@ def search(rng, tier, near):
         c = random_table(rng)
         if c is not None: out.append(c)
     out += [deco_case(rng, rng.choice(FEATS)) for _ in range(3000)]
+    out += history_cases(rng, 'quick')
     return out
 
 
@@ -518,8 +669,50 @@ def enc_targ(v, w, enum_objs):
     return ['ty', -1, type(v).__name__]
 
 
+def query(inst, w, enum_objs):
+    out = {}
+    try:
+        r = inst.type_vars
+        out['type_vars'] = ['ok', [[enc_targ(k, w, enum_objs), enc_targ(v, w, enum_objs)] for k, v in r.items()]]
+    except BaseException as e:
+        out['type_vars'] = ['raised', exc_name(e)]
+    try:
+        out['type_var'] = ['ok', enc_targ(inst.type_var, w, enum_objs)]
+    except BaseException as e:
+        out['type_var'] = ['raised', exc_name(e)]
+    return out
+
+
+def run_history(case):
+    """all instances are created first, then queried one after the other in the order of the case"""
+    c = case['c']
+    w = _W.get()
+    try:
+        subs, clss = build_classes(c['table'])
+    except BaseException as e:
+        return {'invalid': exc_name(e)}
+    known = {id(k): i for i, k in enumerate(clss)}
+    insts = []
+    try:
+        for cid, orig in c['insts']:
+            cls = clss[cid]
+            if orig is not None:
+                args = tuple(targ_obj(a) for a in orig)
+                insts.append((cls[args] if len(args) != 1 else cls[args[0]])())
+            else:
+                insts.append(cls())
+    except BaseException as e:
+        return {'invalid': 'instantiate:' + exc_name(e)}
+    if not all(hasattr(type(i), 'type_vars') for i in insts):
+        return {'invalid': 'not a GenericMixin'}
+    return {'mros': [[known[id(k)] for k in type(i).__mro__ if id(k) in known] for i in insts],
+            'hist': [query(insts[i], w, {}) for i in c['qs']]}
+
+
 def run_one(case):
     c = case['c']; x = case.get('x', {})
+    if c['k'] == 'history':
+        return run_history(case)
     w = _W.get()
     out = {}
     deco = c['k'] == 'decorated'
@@ -734,33 +927,63 @@ def render(c):
         if b[0] == 'generic': return 'Generic[' + ', '.join(f'T{i}' for i in b[1]) + ']'
         if b[0] == 'param': return cn(b[1]) + '[' + ', '.join(ta(a) for a in b[2]) + ']'
         return cn(b[1])
-    decl = '; '.join(f"class C{LIB + k}({', '.join(base(b) for b in cd['bases'])})" + (' <subscriptable, no __orig_bases__>' if cd.get('cgi') else '')
+    decl = '; '.join(f"class C{LIB + k}({', '.join(base(b) for b in cd['bases'])})" + ((' <subscribed like typing.Sequence, no __orig_bases__>' if cd.get('cgi') == 'typing' else ' <subscriptable like list, no __orig_bases__>')
+                        if cd.get('cgi') else '') + (f" <instances: {cd['eq']}>" if cd.get('eq') else '')
                      for k, cd in enumerate(c['table']))
     inst = cn(c['cls']) + ('[' + ', '.join(ta(a) for a in c['orig']) + ']' if c['orig'] is not None else '') + '()'
     return f'{decl}; {inst}'
+
+
+def spec_fail(spec, tvs, one):
+    """does the implementation's answer (type_vars, type_var) violate what the specification demands?"""
+    if spec[0] == 'ok':
+        if tvs[0] != 'ok' or as_map(tvs[1]) != as_map(spec[1]):
+            return f"type_vars is {tvs} but the declarations say {spec[1]}"
+        if len(spec[1]) == 1 and one != ['ok', spec[1][0][1]]:
+            return f"type_var is {one} but the single type argument is {spec[1][0][1]}"
+        if len(spec[1]) != 1 and one != ['raised', 'AssertionError']:
+            return f"type_var is {one} although the class has {len(spec[1])} type parameters (AssertionError expected)"
+    elif spec[0] == 'mustAssert':
+        if tvs != ['raised', 'AssertionError'] or one != ['raised', 'AssertionError']:
+            return f"non-generic class / unparametrised instance: expected AssertionError, got type_vars={tvs} type_var={one}"
+    return None
+
+
+def judge_history(case, impl, model, fam):
+    c = case['c']
+    why = []
+    pfail = None
+    if not model.get('issub_ok', True): why.append('model: issubclass by reachability differs from membership in the computed MRO')
+    if impl['mros'] != model['mros']: why.append(f"__mro__ {impl['mros']} vs model {model['mros']}")
+    tags = set()
+    for k, (qi, a, m) in enumerate(zip(c['qs'], impl['hist'], model['hist'])):
+        m_tv = norm_model_res(m['model']); m_one = norm_model_res(m['type_var'])
+        if a['type_vars'] != m_tv: why.append(f"query {k} (instance {qi}): type_vars {a['type_vars']} vs model {m_tv}")
+        if a['type_var'] != m_one: why.append(f"query {k} (instance {qi}): type_var {a['type_var']} vs model {m_one}")
+        f = spec_fail(m['spec'], a['type_vars'], a['type_var'])
+        if f and pfail is None:
+            cid, orig = c['insts'][qi]
+            asked = [render({'table': c['table'], 'cls': c['insts'][j][0], 'orig': c['insts'][j][1]}).rsplit('; ', 1)[1] for j in c['qs'][:k]]
+            pfail = (f"{render({'table': c['table'], 'cls': cid, 'orig': orig})} — query {k} of the history, after queries on "
+                     f"{asked if asked else 'nothing'} (instances created beforehand: {len(c['insts'])}): {f}")
+        tags.add(f"{m['kind']}/{m['model'][0] if m['model'][0] == 'ok' else m['model'][1]}")
+    return {'corr': not why, 'pfail': pfail, 'nontrivial': any(a['type_vars'][0] == 'ok' for a in impl['hist']),
+            'tag': fam + '/' + (sorted(tags)[0] if len(tags) == 1 else 'mixed'), 'why': '; '.join(why[:4])}
 
 
 def judge(case, impl, model):
     fam = case.get('x', {}).get('fam', '?')
     if 'invalid' in impl:
         return {'corr': True, 'pfail': None, 'nontrivial': False, 'tag': 'invalid:' + fam.split('-')[0], 'why': ''}
+    if case['c']['k'] == 'history':
+        return judge_history(case, impl, model, fam)
     why = []
+    if not model.get('issub_ok', True): why.append('model: issubclass by reachability differs from membership in the computed MRO')
     m_tv = norm_model_res(model['model']); m_one = norm_model_res(model['type_var'])
     if impl['type_vars'] != m_tv: why.append(f"type_vars {impl['type_vars']} vs model {m_tv}")
     if impl['type_var'] != m_one: why.append(f"type_var {impl['type_var']} vs model {m_one}")
     if impl['mro'] != model['mro']: why.append(f"__mro__ {impl['mro']} vs model {model['mro']}")
-    pfail = None
-    spec = model['spec']
-    if spec[0] == 'ok':
-        if impl['type_vars'][0] != 'ok' or as_map(impl['type_vars'][1]) != as_map(spec[1]):
-            pfail = f"type_vars is {impl['type_vars']} but the declarations say {spec[1]}"
-        elif len(spec[1]) == 1 and impl['type_var'] != ['ok', spec[1][0][1]]:
-            pfail = f"type_var is {impl['type_var']} but the single type argument is {spec[1][0][1]}"
-        elif len(spec[1]) != 1 and impl['type_var'] != ['raised', 'AssertionError']:
-            pfail = f"type_var is {impl['type_var']} although the class has {len(spec[1])} type parameters (AssertionError expected)"
-    elif spec[0] == 'mustAssert':
-        if impl['type_vars'] != ['raised', 'AssertionError'] or impl['type_var'] != ['raised', 'AssertionError']:
-            pfail = f"non-generic class / unparametrised instance: expected AssertionError, got type_vars={impl['type_vars']} type_var={impl['type_var']}"
+    pfail = spec_fail(model['spec'], impl['type_vars'], impl['type_var'])
     if pfail is not None:
         pfail = f"{render(case['c'])}: {pfail}"
     tag = f"{fam}/{model['kind']}/{model['model'][0] if model['model'][0] == 'ok' else model['model'][1]}"
@@ -798,6 +1021,8 @@ def extra_coverage(results):
     reported = {}
     for (c, i, m, j) in results:
         if 'invalid' in i: continue
+        if c['c']['k'] == 'history':
+            continue
         if c['c']['k'] == 'generic' and m['spec'][0] == 'unsupported':
             key = 'unsupported-shape:' + c['x']['fam'] + ':' + (i['type_vars'][0] if i['type_vars'][0] == 'ok' else i['type_vars'][1])
             reported[key] = reported.get(key, 0) + 1
